@@ -646,3 +646,26 @@ def callee_tests_param(ctx, f, call, k):
         if not (dom & edges):
             return False
     return True
+
+
+def discarded_results(a):
+    """Yield the call node of every decoder call whose result is thrown away (the call is a
+    statement of its own): for the in-place decoders (vbi_unpar strips the parity bits of a
+    buffer and reports a failure only through its result) the damaged bytes are then used as if
+    they were good."""
+    f = a.f
+    for bid, i in flow.all_events(f):
+        e = f.exprs[i]
+        if e["k"] != "call" or e.get("callee") not in a.sources:
+            continue
+        if _value_used(f, i):
+            continue
+        # initialiser of a declaration?
+        used = False
+        for j, d in enumerate(f.exprs):
+            if d["k"] == "decl":
+                for v in d.get("vars", []):
+                    if "init" in v and i in set(ex.walk(f, v["init"])):
+                        used = True
+        if not used:
+            yield i
